@@ -39,22 +39,22 @@ type scopeVar struct {
 }
 
 type Gen struct {
-	r        *RNG
-	p        *Profile
-	data     *DataEnv
-	flits    map[string]float64
-	scope    []scopeVar
-	loopD    int
-	nextVar  int
-	tags     map[string]bool
-	incs     []string // registered include keys available
-	budget   int
-	noBreak  bool
-	past     []string // variables of counter loops that have ended (still readable afterwards)
-	lastCtx, lastCtxKind string // the most recent {% ctx %} variable and the kind of its source
-	longPath             string // path of the long text value of this case's data, if there is one
+	r                    *RNG
+	p                    *Profile
+	data                 *DataEnv
+	flits                map[string]float64
+	scope                []scopeVar
+	loopD                int
+	nextVar              int
+	tags                 map[string]bool
+	incs                 []string // registered include keys available
+	budget               int
+	noBreak              bool
+	past                 []string // variables of counter loops that have ended (still readable afterwards)
+	lastCtx, lastCtxKind string   // the most recent {% ctx %} variable and the kind of its source
+	longPath             string   // path of the long text value of this case's data, if there is one
 	longLen              int
-	inRegion int
+	inRegion             int
 }
 
 var niceFloats = []float64{0, 1, -1, 0.5, -0.5, 2.25, 10, 12.5, 100, 1e6, 123456.75, -7.125, 3, 0.25, 1e15, 9000.015, 14.345241, 2.5e-7, 1e21, math.MaxInt32}
@@ -537,6 +537,15 @@ func (g *Gen) genMod() AMod {
 		}
 		return lit()
 	}
+	if r.Chance(6) {
+		// a modifier that fails for this value: the print renders nothing (letters and later
+		// modifiers included), and the render goes on
+		g.tag("mods:failing")
+		if r.Bool() {
+			return AMod{Name: "vfail"}
+		}
+		return AMod{Name: []string{"default", "ifThen", "ifThenElse"}[r.Intn(3)]}
+	}
 	switch r.Intn(9) {
 	case 0, 1, 2:
 		return AMod{Name: []string{"default", "def"}[r.Intn(2)], Args: []AArg{arg()}}
@@ -771,6 +780,10 @@ func (g *Gen) genItem(depth int) *Ast {
 		if r.Chance(60) {
 			a.HasElse = true
 			a.Else = append([]*Ast{{K: "text", Text: g.marker()}}, g.genItems(depth+1, r.Intn(2))...)
+			if r.Chance(12) {
+				a.Then = nil // nothing to render when the condition holds, the else branch otherwise
+				g.tag("if:empty-then")
+			}
 		}
 		return a
 	case "ifok":
@@ -907,7 +920,12 @@ func (g *Gen) genItem(depth int) *Ast {
 		}
 		return a
 	case "ctx":
-		return g.genCtx()
+		a := g.genCtx()
+		if len(a.CtxMods) > 0 {
+			// the result of a modifier chain on the right-hand side is read back at once
+			return &Ast{K: "seq", Body: []*Ast{a, {K: "print", Path: a.CtxVar}, {K: "text", Text: g.marker()}}}
+		}
+		return a
 	case "dynprint":
 		return &Ast{K: "print", Path: g.dynVar()}
 	case "pastprint":
@@ -917,6 +935,30 @@ func (g *Gen) genItem(depth int) *Ast {
 		}
 		g.tag("print:past-loop-var")
 		return &Ast{K: "print", Path: g.past[r.Intn(len(g.past))]}
+	case "qempty":
+		// a quoting letter or modifier on a value that is present but empty, right after a
+		// directive that left text in the engine's modifier buffer
+		ev := fmt.Sprintf("e%d", len(g.data.Statics))
+		g.data.Statics = append(g.data.Statics, StaticVar{Name: ev, Kind: "string", Ptr: r.Bool(), S: []byte{}})
+		first := g.genPrint()
+		if o, ok := g.pickOperand("string", "bytes"); ok {
+			first.Path = o.Path
+		}
+		first.Letters = []string{"h", "u", "j", "q", "a", "l"}[r.Intn(6)]
+		second := &Ast{K: "print", Path: ev}
+		switch r.Intn(4) {
+		case 0:
+			second.Letters = "q"
+		case 1:
+			second.Letters = []string{"qq", "jq", "hq"}[r.Intn(3)]
+		case 2:
+			second.Mods = []AMod{{Name: []string{"jsonQuote", "jq"}[r.Intn(2)]}}
+		default:
+			second.Letters = "q"
+			second.Mods = []AMod{{Name: "default", Args: []AArg{{Lit: true, Text: "", Quote: `"`}}}}
+		}
+		g.tag("qempty")
+		return &Ast{K: "seq", Body: []*Ast{first, {K: "text", Text: g.marker()}, second, {K: "text", Text: g.marker()}}}
 	case "ctxcmp":
 		// a copy of a text or number variable compares exactly like its source, in every operator
 		o, ok := g.pickOperand([]string{"string", "string", "bytes", "int", "uint"}[r.Intn(5)])
@@ -1058,7 +1100,7 @@ func (g *Gen) newVar(prefix string) string {
 // every placement, and some interactions need two instructions in one iteration.
 func (g *Gen) loopCombos(body []*Ast, depth int) []*Ast {
 	r := g.r
-	if g.noBreak || !g.p.BreakN || !r.Chance(35) {
+	if g.noBreak || !g.p.BreakN || !r.Chance(50) {
 		return body
 	}
 	mk := func(k string, n int) *Ast {
@@ -1068,7 +1110,31 @@ func (g *Gen) loopCombos(body []*Ast, depth int) []*Ast {
 		}
 		return a
 	}
-	switch r.Intn(7) {
+	switch r.Intn(8) {
+	case 7:
+		// a sibling counting loop that does not iterate, whose else branch names the enclosing
+		// loops: a control instruction in a for-else branch belongs to the loops around the loop
+		if g.loopD < 1 || depth >= g.p.MaxDepth {
+			return body
+		}
+		g.tag("combo:control-in-for-else")
+		var ctl *Ast
+		switch r.Intn(4) {
+		case 0:
+			ctl = &Ast{K: "break", N: 1 + r.Intn(g.loopD+1)}
+		case 1:
+			ctl = &Ast{K: "lazybreak", N: r.Intn(g.loopD + 1)}
+		case 2:
+			ctl = &Ast{K: "continue"}
+		default:
+			ctl = &Ast{K: "if", Cond: g.genLoopCond(), Then: []*Ast{{K: "break", N: 2}}}
+		}
+		empty := &Ast{K: "cloop", Var: g.newVar("i"), Init: "2", InitLit: true, Op: "<", Lim: "2", LimLit: true, Step: "++",
+			Body: []*Ast{{K: "text", Text: g.marker()}}, HasElse: true, Else: []*Ast{{K: "text", Text: g.marker()}, ctl, {K: "text", Text: g.marker()}}}
+		if r.Chance(35) {
+			empty = &Ast{K: "rloop", Var: g.newVar("v"), Src: "nosuch.List", Body: []*Ast{{K: "text", Text: g.marker()}}, HasElse: true, Else: empty.Else}
+		}
+		return append(body, empty, &Ast{K: "text", Text: g.marker()})
 	case 6:
 		// a small depth pending (lazybreak 1), then a sibling loop that leaves with a larger one
 		if g.loopD < 2 || depth >= g.p.MaxDepth {
@@ -1159,7 +1225,7 @@ func (g *Gen) genCLoop(depth int) *Ast {
 	if start < 0 {
 		g.tag("cloop:negative-literal")
 	}
-	lo := start // the smallest value the variable takes inside the body
+	lo := start            // the smallest value the variable takes inside the body
 	hi := start + int64(n) // and an upper bound of the largest
 	if up {
 		a.Step = "++"
@@ -1396,8 +1462,22 @@ func (g *Gen) genCtx() *Ast {
 			a.CtxSrc = fmt.Sprintf("n%d", r.Intn(2))
 			g.tag("ctx:var:counter")
 		}
-		if g.p.Mods && r.Chance(30) {
+		if g.p.Mods && r.Chance(45) {
 			m := g.genMod()
+			if r.Chance(40) {
+				// arguments that are variables, with values other than the piped one
+				ops := g.scalarOperands()
+				va := func() AArg { return AArg{Text: ops[r.Intn(len(ops))].Path} }
+				switch r.Intn(3) {
+				case 0:
+					m = AMod{Name: []string{"default", "def"}[r.Intn(2)], Args: []AArg{va()}}
+				case 1:
+					m = AMod{Name: "ifThenElse", Args: []AArg{va(), va()}}
+				default:
+					m = AMod{Name: "vcat", Args: []AArg{va()}}
+				}
+				g.tag("ctx:mods:variable-argument")
+			}
 			var plain []AArg
 			for _, a := range m.Args {
 				if a.KVName == "" {
@@ -1443,6 +1523,31 @@ func (g *Gen) dynVar() string {
 func (g *Gen) genCounter() *Ast {
 	r := g.r
 	a := &Ast{K: "counter", Var: fmt.Sprintf("n%d", r.Intn(2))}
+	if r.Chance(25) {
+		// a step on a name whose number did not come from a counter tag: an integer variable of
+		// the data (any width, by value or by pointer) or the variable of an enclosing counting loop
+		var names []string
+		for _, sv := range g.data.Statics {
+			switch sv.Kind {
+			case "int", "int64", "int8":
+				if sv.I > -1000000 && sv.I < 1000000 {
+					names = append(names, sv.Name)
+				}
+			}
+		}
+		for _, sc := range g.scope {
+			if sc.Kind == "int" {
+				names = append(names, sc.Name)
+			}
+		}
+		if len(names) > 0 {
+			a.Var = names[r.Intn(len(names))]
+			a.CntOp = []string{"++", "--", "+", "-"}[r.Intn(4)]
+			a.CntArg = 1 + r.Intn(5)
+			g.tag("counter:step-on-plain-integer")
+			return a
+		}
+	}
 	switch r.Intn(5) {
 	case 0, 1:
 		a.CntOp, a.CntArg = "=", r.Intn(10)
